@@ -72,6 +72,7 @@ fn main() {
         try_family!(scen::lpg_scenarios(three));
         try_family!(scen::lpg_matrix_scenarios());
         try_family!(scen::rdf_scenarios(three));
+        try_family!(scen::rdf_matrix_scenarios());
         try_family!(scen::txm_scenarios(three));
         try_family!(scen::bm_scenarios(three));
         try_family!(scen::cat_scenarios(three));
@@ -135,6 +136,7 @@ fn main() {
             run_all(scen::lpg_scenarios(false), bound, cap, &mut rep, only);
             run_all(scen::lpg_matrix_scenarios(), bound, cap, &mut rep, only);
             run_all(scen::rdf_scenarios(false), bound, cap, &mut rep, only);
+            run_all(scen::rdf_matrix_scenarios(), bound, cap, &mut rep, only);
             run_all(scen::txm_scenarios(false), bound, cap, &mut rep, only);
             run_all(scen::bm_scenarios(false), bound, cap, &mut rep, only);
             run_all(scen::cat_scenarios(false), bound, cap, &mut rep, only);
